@@ -1,0 +1,28 @@
+//! Tuning knobs a simulator may turn per run. Unset (the default) nothing changes.
+//!
+//! `Client` and `Server` always build their half connections with the maximum frame and packet
+//! window sizes (4096). The knob below replaces both window sizes, in both directions, for every
+//! half connection created on this thread while it is set, so that a simulation can run the real
+//! client/server stack with windows that actually fill up.
+
+use std::cell::Cell;
+
+thread_local! {
+    static WINDOWS: Cell<Option<(u32, u32)>> = Cell::new(None);
+}
+
+/// Frame and packet window size (powers of two, at most 4096) for half connections created from
+/// now on; `None` restores the configured sizes.
+pub fn set_windows(windows: Option<(u32, u32)>) {
+    WINDOWS.with(|w| w.set(windows));
+}
+
+pub fn apply_windows(mut config: crate::half_connection::Config) -> crate::half_connection::Config {
+    if let Some((frame, packet)) = WINDOWS.with(|w| w.get()) {
+        config.tx_frame_window_size = frame;
+        config.rx_frame_window_size = frame;
+        config.tx_packet_window_size = packet;
+        config.rx_packet_window_size = packet;
+    }
+    config
+}
